@@ -127,6 +127,24 @@ fn default_traffic(rng: &mut Rng, total: usize, max_len: usize, stop_ns: u64) ->
         probes_after_ns: None,
         script: Vec::new(),
         pattern: 0,
+        idle: Vec::new(),
+    }
+}
+
+/// A quarter of the senders fall silent for 2.5..9 s once or twice in the middle of their
+/// activity and resume (drawn from a stream of its own, so the scenario is otherwise unchanged).
+pub fn add_idle_spans(s: &mut Scenario) {
+    let mut rng = Rng::new(s.seed ^ 0x1d1e_5a5a);
+    for t in s.traffic.iter_mut() {
+        if t.total == 0 || t.stop_ns <= t.start_ns || !t.script.is_empty() || !rng.chance(0.25) {
+            continue;
+        }
+        for _ in 0..rng.range(1, 2) {
+            let from = rng.range(t.start_ns, t.stop_ns);
+            let len = rng.range(2500, 9000) * MS;
+            t.idle.push((from, from + len));
+            t.stop_ns += len;
+        }
     }
 }
 
@@ -541,7 +559,7 @@ pub fn run_family(family: &str, scn_seed: u64, idx: u64, params: &Params, out: &
     let sample = idx % 97 == 0;
     match family {
         "faulty" | "ideal" | "frag" | "fault-then-fair" | "blackout" | "rate" | "alloc-pair" => {
-            let scn = match family {
+            let mut scn = match family {
                 "faulty" => gen_faulty(scn_seed, params),
                 "ideal" => gen_ideal(scn_seed, params),
                 "frag" => gen_frag(scn_seed, params),
@@ -550,6 +568,7 @@ pub fn run_family(family: &str, scn_seed: u64, idx: u64, params: &Params, out: &
                 "rate" => gen_rate(scn_seed, params),
                 _ => gen_alloc_pair(scn_seed, params),
             };
+            add_idle_spans(&mut scn);
             let o = Sim::new(&scn, TwinMode::None, false, verbose).run();
             let c = &o.c;
             let delivered = c.get("deliveries");
